@@ -76,7 +76,19 @@ type Out struct {
 	Default    string              `json:"default_level"`
 	Guards     map[string]string   `json:"guards"`
 	Sanitiser  map[string][]string `json:"sanitiser"`
+	Gates      []Gate              `json:"gates"` // every place that decides whether a client address may be printed
 }
+
+// Gate: the expression that guards an address-printing site.  OK means it is the station's rule
+// (cmd/application/main.go): strconv.ParseBool(os.Getenv("LOG_CLIENT_IP")) accepted as true, false on error.
+type Gate struct {
+	Where string `json:"where"`
+	Expr  string `json:"expr"`
+	OK    bool   `json:"ok"`
+	Why   string `json:"why"`
+}
+
+var gates []Gate
 
 var fset = token.NewFileSet()
 
@@ -318,6 +330,10 @@ func (f *fnCtx) classify(e ast.Expr, pos token.Pos, depth int) Arg {
 	if c, ok := e.(*ast.CallExpr); ok {
 		if calleeName(c) == "generalizeErr" {
 			a.Class, a.Why = "Sanitised", "generalizeErr(...)"
+			return a
+		}
+		if addrFuncs[calleeName(c)] {
+			a.Class, a.Why = "ClientAddr", calleeName(c)+" can return the client address on a path the station's LOG_CLIENT_IP rule does not guard"
 			return a
 		}
 		if placeholderFuncs[calleeName(c)] {
@@ -641,8 +657,14 @@ func info_uses_pkg(info *types.Info, id *ast.Ident) (*types.PkgName, bool) {
 	return p, ok
 }
 
-// findPlaceholderFuncs: a function whose every address-bearing return sits in the THEN branch of an
-// `if` whose condition mentions logClientIP, and that otherwise returns a literal
+var addrFuncs = map[string]bool{} // functions that can return the client address without the station's gate
+
+const parseRule = `strconv.ParseBool(os.Getenv("LOG_CLIENT_IP"))`
+
+// findPlaceholderFuncs: a function that returns the client address only in the THEN branch of
+//   if X, err := strconv.ParseBool(os.Getenv("LOG_CLIENT_IP")); err == nil && X { ... }
+// (the station's rule, fail-closed) and a literal otherwise.  A function that returns the address
+// under any other condition — or unconditionally — is an address source.
 func findPlaceholderFuncs(files []*ast.File) {
 	for _, f := range files {
 		for _, d := range f.Decls {
@@ -651,20 +673,34 @@ func findPlaceholderFuncs(files []*ast.File) {
 				continue
 			}
 			guarded, unguarded := 0, 0
-			var walk func(n ast.Node, cond string)
-			walk = func(n ast.Node, cond string) {
+			gexpr := ""
+			var walk func(n ast.Node, okGate bool)
+			walk = func(n ast.Node, okGate bool) {
 				ast.Inspect(n, func(m ast.Node) bool {
 					switch s := m.(type) {
 					case *ast.IfStmt:
-						walk(s.Body, src(s.Cond))
+						good := false
+						if as, ok := s.Init.(*ast.AssignStmt); ok && len(as.Lhs) == 2 && len(as.Rhs) == 1 && src(as.Rhs[0]) == parseRule {
+							flag, errv := src(as.Lhs[0]), src(as.Lhs[1])
+							c := strings.ReplaceAll(src(s.Cond), " ", "")
+							if c == errv+"==nil&&"+flag || c == flag+"&&"+errv+"==nil" {
+								good = true
+							}
+						}
+						if s.Init != nil {
+							gexpr = src(s.Init) + "; " + src(s.Cond)
+						} else {
+							gexpr = src(s.Cond)
+						}
+						walk(s.Body, good)
 						if s.Else != nil {
-							walk(s.Else, "")
+							walk(s.Else, false)
 						}
 						return false
 					case *ast.ReturnStmt:
 						for _, r := range s.Results {
 							if addrExpr.MatchString(src(r)) {
-								if strings.Contains(cond, "logClientIP") {
+								if okGate {
 									guarded++
 								} else {
 									unguarded++
@@ -675,11 +711,54 @@ func findPlaceholderFuncs(files []*ast.File) {
 					return true
 				})
 			}
-			walk(fd.Body, "")
-			if guarded > 0 && unguarded == 0 {
+			walk(fd.Body, false)
+			// only string-returning helpers are of interest (getters of typed addresses are classified by type at the call site)
+			isString := len(fd.Type.Results.List) == 1 && src(fd.Type.Results.List[0].Type) == "string"
+			if !isString || guarded+unguarded == 0 || fd.Name.Name == "GetRegistrationAddress" {
+				continue
+			}
+			if unguarded == 0 {
 				placeholderFuncs[fd.Name.Name] = true
+				gates = append(gates, Gate{Where: "func " + fd.Name.Name, Expr: gexpr, OK: true, Why: "the station's rule, fail-closed"})
+			} else {
+				addrFuncs[fd.Name.Name] = true
+				gates = append(gates, Gate{Where: "func " + fd.Name.Name, Expr: gexpr, OK: false,
+					Why: "returns the client address on a path that is not guarded by err == nil && " + parseRule})
 			}
 		}
+	}
+}
+
+// mainGate checks how cmd/application sets its logClientIP variable
+func mainGate(files []*ast.File) {
+	for _, f := range files {
+		if f.Name.Name != "main" {
+			continue
+		}
+		ast.Inspect(f, func(n ast.Node) bool {
+			blk, ok := n.(*ast.BlockStmt)
+			if !ok {
+				return true
+			}
+			for i, st := range blk.List {
+				as, ok := st.(*ast.AssignStmt)
+				if !ok || len(as.Lhs) != 2 || src(as.Lhs[0]) != "logClientIP" {
+					continue
+				}
+				g := Gate{Where: "cmd/application: logClientIP", Expr: src(as)}
+				if len(as.Rhs) == 1 && src(as.Rhs[0]) == parseRule && i+1 < len(blk.List) {
+					if is, ok := blk.List[i+1].(*ast.IfStmt); ok && strings.ReplaceAll(src(is.Cond), " ", "") == src(as.Lhs[1])+"!=nil" &&
+						strings.Contains(src(is.Body), "logClientIP = false") {
+						g.OK, g.Why = true, "ParseBool, false on error"
+					}
+				}
+				if !g.OK {
+					g.Why = "the variable is not set by " + parseRule + " with false on error"
+				}
+				gates = append(gates, g)
+			}
+			return true
+		})
 	}
 }
 
@@ -807,6 +886,7 @@ func main() {
 		all = append(all, pp)
 	}
 	findPlaceholderFuncs(allFiles)
+	mainGate(allFiles)
 	for _, pp := range all {
 		var info *types.Info
 		if out.Typed {
@@ -837,6 +917,7 @@ func main() {
 		return out.Sites[i].Line < out.Sites[j].Line
 	})
 	sort.Strings(out.Packages)
+	out.Gates = gates
 	enc := json.NewEncoder(os.Stdout)
 	enc.SetIndent("", " ")
 	enc.Encode(out)
